@@ -90,7 +90,7 @@ theorem invA_step (w : World) (op : Op) (hw : Inv w) (hA : InvA w) : InvA (w.ste
       · rw [if_pos hc]; exact invA_frame w _ i e hA hi (genAttached_frame w i e o hi)
       · rw [if_neg hc]; exact hA
   cases op
-  case world f => exact invA_fresh f
+  case world f st => exact invA_of_sim (freshOf f) _ (by cases f <;> rfl) (invA_fresh f)
   case init a =>
     simp only [World.step, World.init]
     split
@@ -98,7 +98,7 @@ theorem invA_step (w : World) (op : Op) (hw : Inv w) (hA : InvA w) : InvA (w.ste
     · rename_i hn
       have hn' : w.h.arch = none := by cases h : w.h.arch <;> simp_all
       have := un_attached w hw.un hn'
-      exact ⟨fun i hi => by simp [this] at hi, by simp [this]⟩
+      exact ⟨fun i hi => by simp [this, Holder.alloc] at hi, by simp [this, Holder.alloc]⟩
   case reset hard =>
     simp only [World.step, World.reset]
     split
